@@ -373,6 +373,11 @@ func runCrashSim(r *Run, prop string, cfg PipeCfg, st *Stream, maxCrashes int, c
 			break
 		}
 		acts := ps.healthyActions(true)
+		if ps.cfg.FaultPace > 1 { // longer stretches of healthy progress between two restarts
+			for i := range acts {
+				acts[i].weight *= ps.cfg.FaultPace
+			}
+		}
 		if crashAt < 0 && crashes < maxCrashes {
 			w := 1
 			// bias: crash while requests are in flight or right after a flush
@@ -557,7 +562,7 @@ func (ps *PipeSim) killAll(tag int) {
 }
 
 func init() {
-	Register(&PropertyDef{ID: "C02", Strata: []string{"txn", "nontxn", "txn-enum", "nontxn-enum", "txn-select", "txn-txnheavy", "txn-txnheavy-innersel", "txn-filters", "nontxn-filters"}, Run: func(r *Run, s string) *Violation { return runCrashProp(r, "C02", s) }, StepCap: 30000})
+	Register(&PropertyDef{ID: "C02", Strata: []string{"txn", "nontxn", "txn-enum", "nontxn-enum", "txn-select", "txn-txnheavy", "txn-txnheavy-innersel", "txn-filters", "nontxn-filters", "txn-twodbs", "nontxn-twodbs"}, Run: func(r *Run, s string) *Violation { return runCrashProp(r, "C02", s) }, StepCap: 30000})
 	Register(&PropertyDef{ID: "C07", Strata: []string{"txn-idle", "nontxn-idle", "txn", "nontxn", "txn-enum", "nontxn-enum", "runid-switch"}, Run: func(r *Run, s string) *Violation {
 		if s == "runid-switch" {
 			return runC07Switch(r, s)
@@ -601,6 +606,7 @@ func runCrashProp(r *Run, prop, stratum string) *Violation {
 	if r.Tier == "thorough" {
 		max = 150
 	}
+	cfg.FaultPace = []int{1, 3, 8}[g.Choose("faultpace", 3)]
 	if g.Choose("startpath", 2) == 0 {
 		cfg.StartPath = true
 		cfg.AfterFullSync = g.Choose("afterfullsync", 2) == 0
@@ -614,6 +620,19 @@ func runCrashProp(r *Run, prop, stratum string) *Violation {
 	}
 	if hasWord(stratum, "innersel") {
 		o.TxnInnerSelect = true
+	}
+	if !hasWord(stratum, "filters") && g.Choose("fewdbs", 3) == 0 {
+		// few databases: the stream keeps coming back to the same ones (database 0 included), and a database map over
+		// them chains (a->b, b->c), so that mapping a database twice is not the identity
+		o.NumDBs = 2 + g.Choose("numdbs", 3)
+		if g.Choose("chainmap", 2) == 0 {
+			cfg.DBM = DBMap{TargetDb: -1, TargetDbMap: map[int]int{}}
+			for from := 0; from < o.NumDBs; from++ {
+				if g.Choose("mapthis", 3) != 0 {
+					cfg.DBM.TargetDbMap[from] = g.Choose("mapto", o.NumDBs+1)
+				}
+			}
+		}
 	}
 	if hasWord(stratum, "filters") {
 		// output filters (command / database / key prefix / slot lists): what is filtered out leaves no trace on the
@@ -629,6 +648,14 @@ func runCrashProp(r *Run, prop, stratum string) *Violation {
 		cfg.Keepalive = tickerChoices[g.Choose("idle_ka", 4)] + 137*time.Microsecond
 		cfg.CpTicker = tickerChoices[g.Choose("idle_cp", 4)] + 271*time.Microsecond
 	}
+	twodbs := hasWord(stratum, "twodbs")
+	if twodbs {
+		// two databases, many switches, several well-spaced restarts: every restart is likely to resume in another
+		// database than the one before (what the output remembers about the previous resume must not leak into the next)
+		o.NumDBs, o.SelectHeavy, o.MaxItems = 2, true, 2*max
+		cfg.FaultPace = 8
+		cfg.DBM = DBMap{TargetDb: -1}
+	}
 	enum := hasWord(stratum, "enum")
 	if enum {
 		o.MaxItems = 12
@@ -639,6 +666,9 @@ func runCrashProp(r *Run, prop, stratum string) *Violation {
 	st := GenStream(g, o)
 	r.Sample = fmt.Sprintf("cfg{%s} stream{%s}", cfg, describeStream(st, 10))
 	maxCrashes := 1 + g.Choose("ncrashes", 3)
+	if twodbs {
+		maxCrashes = 3
+	}
 	if !enum {
 		ps, orc := runCrashSim(r, prop, cfg, st, maxCrashes, -1)
 		r.NonTriv = r.W.Faults["crash"] > 0 && len(orc.expected) >= 2
